@@ -98,7 +98,13 @@ def op_load(state: State, a: Dict[str, Any], env: simenv.SimEnv) -> Any:
         ta = TraceAnalysis(trace_files=files, trace_dir=trace_dir, include_last_profiler_step=inc)
         t = ta.t
     else:
-        t = Trace(trace_files=files, trace_dir=trace_dir)
+        prev = state.misc.get("last_trace_object")
+        if a.get("retry_same_object") and prev is not None:
+            # the user calls the loading method again on the object whose previous attempt raised
+            t = prev
+        else:
+            t = Trace(trace_files=files, trace_dir=trace_dir)
+        state.misc["last_trace_object"] = t
         if mode == "full":
             t.load_traces(include_last_profiler_step=inc, use_multiprocessing=bool(a.get("mp", True)),
                           use_memory_profiling=bool(a.get("memprof", True)))
@@ -194,6 +200,31 @@ def apply_pre(state: State, pre: List[Dict[str, Any]], env: simenv.SimEnv) -> No
             info = read_any(env, path)
             env.log("fault_fired", kind="flip_byte", path=f["path"], pos=pos, valid=bool(info.get("valid")),
                     doc=info.get("doc") if info.get("valid") else None)
+        elif kind == "flip_zip_member":
+            # one stored byte of one member's data inside an archive (the member's CRC no longer matches)
+            import struct
+            import zipfile
+            if path is None or not os.path.exists(path):
+                continue
+            try:
+                with env.real_open(path, "rb") as fh:
+                    zf = zipfile.ZipFile(fh)
+                    info = next((zi for zi in zf.infolist() if zi.filename.endswith(f["member"])), None)
+                    if info is None or info.compress_size == 0:
+                        continue
+                    fh.seek(info.header_offset)
+                    hdr = fh.read(30)
+                    n_name, n_extra = struct.unpack("<HH", hdr[26:30])
+                    start = info.header_offset + 30 + n_name + n_extra
+                    pos = start + min(info.compress_size - 1, int(float(f.get("frac", 0.5)) * info.compress_size))
+            except Exception:  # noqa: BLE001 - not a readable archive (torn by an earlier fault): nothing to flip
+                continue
+            with env.real_open(path, "r+b") as fh:
+                fh.seek(pos)
+                b = fh.read(1)
+                fh.seek(pos)
+                fh.write(bytes([b[0] ^ f.get("mask", 0x01)]))
+            env.log("fault_fired", kind="flip_zip_member", path=f["path"], member=f["member"], pos=pos)
         else:
             raise SimHarnessError(f"unknown pre-fault {kind}")
 
@@ -233,6 +264,7 @@ def run_session(sess: Dict[str, Any], world_dir: str, emit: Callable[[Dict[str, 
     for i, o in enumerate(sess["ops"]):
         gc.collect()
         env.cur_op = i
+        env.cur_op_name = o["op"]
         env.clock_jump()
         # per-operation environment flags
         for k in list(os.environ.keys()):
